@@ -131,7 +131,7 @@ def sliceArm (cfg : Cfg) (tag : String) (t : TyDef) (r : Res Ty) : Res Ty :=
 def mapArm (tag : String) (v : TyDef) (rk rv : Res Ty) : Res Ty :=
   if v.kind = .map then .err else
   match rk, rv with
-  | .ok kc, .ok vc => .ok (.map kc vc (tag == "proto"))
+  | .ok kc, .ok vc => if vc.isProtoSlice then .err else .ok (.map kc vc (tag == "proto"))
   | .ok _, e => e
   | e, _ => e
 
@@ -242,7 +242,7 @@ theorem mapArm_fine {tag : String} {v : TyDef} {rk rv : Res Ty} (hk : rk.fine) (
     (mapArm tag v rk rv).fine := by
   unfold mapArm; split
   · trivial
-  · cases rk <;> cases rv <;> first | trivial | exact hk | exact hv
+  · cases rk <;> cases rv <;> first | trivial | exact hk | exact hv | (simp only; split <;> trivial)
 
 theorem structArm_fine {name : String} {r : Res Fields} (h : r.fine) : (structArm name r).fine := by
   unfold structArm
@@ -390,13 +390,18 @@ theorem sliceWrap_ok {cfg : Cfg} {tag : String} {b : Bool} {c' c : Ty}
 
 theorem mapArm_ok {tag : String} {v : TyDef} {rk rv : Res Ty} {c : Ty}
     (h : mapArm tag v rk rv = .ok c) :
-    v.kind ≠ .map ∧ ∃ kc vc, rk = .ok kc ∧ rv = .ok vc ∧ c = .map kc vc (tag == "proto") := by
+    v.kind ≠ .map ∧ ∃ kc vc, rk = .ok kc ∧ rv = .ok vc ∧ vc.isProtoSlice = false ∧
+      c = .map kc vc (tag == "proto") := by
   unfold mapArm at h
   by_cases hk : v.kind = .map
   · simp [hk] at h
   · simp only [if_neg hk] at h
     cases rk <;> cases rv <;> simp at h
-    exact ⟨hk, _, _, rfl, rfl, h.symm⟩
+    rename_i kc vc
+    cases hp : vc.isProtoSlice
+    · simp [hp] at h
+      exact ⟨hk, _, _, rfl, rfl, hp, h.symm⟩
+    · simp [hp] at h
 
 theorem structArm_ok {name : String} {r : Res Fields} {c : Ty} (h : structArm name r = .ok c) :
     ∃ cfs, r = .ok cfs ∧ hasDup (cfs.map (·.1)) = false ∧ c = .struct name cfs := by
@@ -695,7 +700,7 @@ theorem mapArm_sound {tag : String} {k v : TyDef} {rk rv : Res Ty} {c : Ty}
     (hkey : k.kind ≠ .map)
     (ihk : ∀ c', rk = .ok c' → Inv k c') (ihv : ∀ c', rv = .ok c' → Inv v c')
     (h : mapArm tag v rk rv = .ok c) : c.wf ∧ c.isMap = true ∧ c.isFloatPtr = false := by
-  obtain ⟨hk, kc, vc, hrk, hrv, rfl⟩ := mapArm_ok h
+  obtain ⟨hk, kc, vc, hrk, hrv, _, rfl⟩ := mapArm_ok h
   have ik := ihk kc hrk
   have iv := ihv vc hrv
   refine ⟨⟨ik.wf, iv.wf, ?_, ?_⟩, rfl, rfl⟩
@@ -905,7 +910,7 @@ theorem buildNamed_kind_map (cfg : Cfg) (n : String) : (d : TyDef) → (tag : St
     d.kind = .map → buildNamed cfg n d tag = .ok c → c.isMap = true
   | .map k v, tag, c, _, h => by
     rw [buildNamed_map] at h
-    obtain ⟨_, kc, vc, _, _, rfl⟩ := mapArm_ok h; rfl
+    obtain ⟨_, kc, vc, _, _, _, rfl⟩ := mapArm_ok h; rfl
   | .named m t, tag, c, hk, h => by
     rw [buildNamed] at h
     exact buildNamed_kind_map cfg n t tag c hk h
@@ -922,7 +927,7 @@ theorem build_kind_map {cfg : Cfg} {d : TyDef} {tag : String} {c : Ty} (hk : d.k
   cases d with
   | map k v =>
     rw [build_map] at h
-    obtain ⟨_, kc, vc, _, _, rfl⟩ := mapArm_ok h; rfl
+    obtain ⟨_, kc, vc, _, _, _, rfl⟩ := mapArm_ok h; rfl
   | named m t =>
     rw [build_named, hreg] at h
     exact buildNamed_kind_map cfg m t tag c hk h
@@ -1186,6 +1191,17 @@ theorem build_ptr_map {cfg : Cfg} {t : TyDef} (tag : String) (h : t.kind = .map)
 theorem build_map_map {cfg : Cfg} (k : TyDef) {v : TyDef} (tag : String) (h : v.kind = .map) :
     build cfg (.map k v) tag = .err := by
   rw [build_map]; simp [mapArm, h]
+
+/-- a map whose value codec is (a pointer to) the protobuf repeated form: rejected. -/
+theorem build_map_protoslice {cfg : Cfg} (k : TyDef) {v : TyDef} {vc : Ty} (tag : String)
+    (hb : build cfg v "" = .ok vc) (hp : vc.isProtoSlice = true) :
+    build cfg (.map k v) tag = .err := by
+  rw [build_map, hb]
+  unfold mapArm
+  split
+  · rfl
+  · have hk := build_total cfg k ""
+    cases hkr : build cfg k "" <;> simp [hkr, Res.fine, hp] at hk ⊢
 
 /-- only `[]byte` has a registry entry among the slice types. -/
 theorem regLoad_slice_none {cfg : Cfg} {t : TyDef} (tag : String)
